@@ -58,6 +58,9 @@ func (ss *Sorts) typeName(t types.Type) string {
 func (ss *Sorts) SortOf(t types.Type) Sort {
 	switch u := t.(type) {
 	case *types.TypeParam:
+		if ct := coreTypeOf(u); ct != nil {
+			return ss.SortOf(ct)
+		}
 		n := "TP!" + u.Obj().Name()
 		ss.tparams[n] = true
 		return Sort(n)
@@ -100,6 +103,24 @@ func (ss *Sorts) SortOf(t types.Type) Sort {
 		panic(unsupported("tuple sort"))
 	}
 	panic(unsupported(fmt.Sprintf("type %T %s", t, t)))
+}
+
+// coreTypeOf: a type parameter constrained by a single type (e.g. [K string]) behaves like that type.
+func coreTypeOf(tp *types.TypeParam) types.Type {
+	iface, ok := tp.Constraint().Underlying().(*types.Interface)
+	if !ok || iface.NumEmbeddeds() != 1 || iface.NumExplicitMethods() != 0 {
+		return nil
+	}
+	switch e := iface.EmbeddedType(0).(type) {
+	case *types.Union:
+		if e.Len() == 1 {
+			return e.Term(0).Type()
+		}
+		return nil
+	case *types.Basic:
+		return e
+	}
+	return nil
 }
 
 func (ss *Sorts) structSort(name string, st *types.Struct) Sort {
